@@ -31,7 +31,7 @@ SHAPE_RS = 'fidget-core/src/shape/mod.rs'
 VAR_RS = 'fidget-core/src/var/mod.rs'
 EVAL_RS = 'fidget-core/src/eval/mod.rs'
 TRACING_RS = 'fidget-core/src/eval/tracing.rs'
-PROPS = ['C14', 'C11']
+PROPS = ['C14', 'C11', 'C10']
 
 RESIZE_ANCHOR = None
 
@@ -40,6 +40,14 @@ PRELUDE = r'''
 #[verifier::external_body]
 #[verifier::reject_recursive_types(T)]
 pub struct Matrix4<T> { p: core::marker::PhantomData<T> }
+impl Matrix4<f32> {
+    /// entry (row, column) of the matrix
+    pub uninterp spec fn m(&self, i: int, j: int) -> f32;
+    /// nalgebra's `row(i)` view, as the four entries of the row; an index outside 0..4 panics there (precondition here)
+    #[verifier::external_body]
+    pub fn row(&self, i: usize) -> (r: [f32; 4]) requires i < 4 ensures forall|k: int| 0 <= k < 4 ==> r@[k] == self.m(i as int, k) { unimplemented!() }
+}
+@DATA_STUBS@
 #[verifier::external_body]
 pub struct VarMap { p: u8 }
 impl VarMap {
@@ -121,6 +129,68 @@ pub open spec fn missing<V>(m: VarMap, vars: Map<VarIndex, V>) -> bool {
 }
 '''
 
+DATA_STUB = '''// ---- @T@ as `Transformable::transform` sees it: Copy, `+`, `/`, `* f32`, `From<f32>` (stubs with uninterpreted meanings; the
+// operators themselves are under contract in units interval / grad)
+pub struct @T@ { @F@ }
+impl Clone for @T@ { fn clone(&self) -> (r: Self) ensures r == *self { *self } }
+impl Copy for @T@ {}
+pub uninterp spec fn @p@_add(a: @T@, b: @T@) -> @T@;
+pub uninterp spec fn @p@_div(a: @T@, b: @T@) -> @T@;
+pub uninterp spec fn @p@_scale(a: @T@, x: f32) -> @T@;
+pub uninterp spec fn @p@_from(x: f32) -> @T@;
+impl FromSpecImpl<f32> for @T@ {
+    open spec fn obeys_from_spec() -> bool { true }
+    open spec fn from_spec(e: f32) -> Self { @p@_from(e) }
+}
+impl From<f32> for @T@ { #[verifier::external_body] fn from(f: f32) -> (r: Self) { unimplemented!() } }
+impl AddSpecImpl<@T@> for @T@ {
+    open spec fn obeys_add_spec() -> bool { true }
+    open spec fn add_req(self, rhs: @T@) -> bool { true }
+    open spec fn add_spec(self, rhs: @T@) -> @T@ { @p@_add(self, rhs) }
+}
+impl std::ops::Add<@T@> for @T@ { type Output = @T@; #[verifier::external_body] fn add(self, rhs: @T@) -> @T@ { unimplemented!() } }
+impl DivSpecImpl<@T@> for @T@ {
+    open spec fn obeys_div_spec() -> bool { true }
+    open spec fn div_req(self, rhs: @T@) -> bool { true }
+    open spec fn div_spec(self, rhs: @T@) -> @T@ { @p@_div(self, rhs) }
+}
+impl std::ops::Div<@T@> for @T@ { type Output = @T@; #[verifier::external_body] fn div(self, rhs: @T@) -> @T@ { unimplemented!() } }
+impl MulSpecImpl<f32> for @T@ {
+    open spec fn obeys_mul_spec() -> bool { true }
+    open spec fn mul_req(self, rhs: f32) -> bool { true }
+    open spec fn mul_spec(self, rhs: f32) -> @T@ { @p@_scale(self, rhs) }
+}
+impl std::ops::Mul<f32> for @T@ { type Output = @T@; #[verifier::external_body] fn mul(self, rhs: f32) -> @T@ { unimplemented!() } }
+/// row i of M·(x, y, z, 1) in the type's own arithmetic
+pub open spec fn @p@_hom(x: @T@, y: @T@, z: @T@, mat: &Matrix4<f32>, i: int) -> @T@ {
+    @p@_add(@p@_add(@p@_add(@p@_scale(x, mat.m(i, 0)), @p@_scale(y, mat.m(i, 1))), @p@_scale(z, mat.m(i, 2))), @p@_from(mat.m(i, 3)))
+}
+/// the transformed position: M·(x, y, z, 1) divided by its homogeneous coordinate
+pub open spec fn @p@_tr(x: @T@, y: @T@, z: @T@, mat: &Matrix4<f32>) -> (@T@, @T@, @T@) {
+    (@p@_div(@p@_hom(x, y, z, mat, 0), @p@_hom(x, y, z, mat, 3)), @p@_div(@p@_hom(x, y, z, mat, 1), @p@_hom(x, y, z, mat, 3)), @p@_div(@p@_hom(x, y, z, mat, 2), @p@_hom(x, y, z, mat, 3)))
+}
+'''
+
+
+def data_stub(T, p, fields):
+    return DATA_STUB.replace('@T@', T).replace('@p@', p).replace('@F@', fields)
+
+
+def array_map(body, trace):
+    '''R-arraymap: `[c0, c1, ..].map(|i| { BODY })` -> `[{ let i = c0; BODY }, { let i = c1; BODY }, ..]` (array::map applies the
+    closure to the elements in order; the closure captures by reference and has no effect)'''
+    m = re.search(r'\[((?:\d+, )*\d+)\]\.map\(\|(\w+)\| \{', body)
+    if not m:
+        raise ExtractError('R-arraymap: no `[..].map(|i| {` in Transformable::transform')
+    ob = m.end() - 1
+    cb = rsx.match_brace(body, ob)
+    if body[cb + 1] != ')':
+        raise ExtractError('R-arraymap: closure is not the only argument')
+    inner = body[ob + 1:cb]
+    elems = ['{ let %s = %s;%s}' % (m.group(2), c, inner) for c in m.group(1).split(', ')]
+    trace.fire('R-arraymap')
+    return body[:m.start()] + '[' + ', '.join(elems) + ']' + body[cb + 2:]
+
 
 def tuple_struct(src, name):
     m = re.search(r'^struct %s\b[^;{]*;' % name, src, re.M)
@@ -187,7 +257,23 @@ def build(repo, trace):
     i, j, k = rsx.find_item(sh, r'^trait Transformable\b', 0, 'trait Transformable')
     trf = sh[i:k].replace('trait Transformable', 'pub trait Transformable')
     trace.items.append((SHAPE_RS, 'struct ShapeTape, ShapeTape::vars, struct MissingVar, enum ShapeTracingEvalError, struct ShapeTracingEval, trait Transformable'))
-    trace.drop('impl Transformable for f32/Interval/Grad (nalgebra), BoundShape, ShapeRenderHints')
+    trace.drop('impl Transformable for f32 (nalgebra transform_point; bounded contract shape_transform stands in), BoundShape, ShapeRenderHints')
+    timpls = []
+    for T, p in (('Interval', 'iv'), ('Grad', 'gd')):
+        i, j, k = rsx.find_item(sh, r'^impl Transformable for %s\b' % T, 0, 'impl Transformable for ' + T)
+        try:
+            t = array_map(sh[i:k], trace)
+        except ExtractError as e:
+            # left as written: the pre-check decides whether Verus can take the function (outside the subset -> that obligation alone is undecided)
+            t = sh[i:k]
+            trace.drop('R-arraymap not applicable to <%s as Transformable>::transform (%s)' % (T, e))
+        old = '    fn transform('
+        if t.count(old) != 1:
+            raise ExtractError('impl Transformable for %s changed' % T)
+        t = t.replace(old, '    open spec fn tr(x: %s, y: %s, z: %s, mat: &Matrix4<f32>) -> (%s, %s, %s) { %s_tr(x, y, z, mat) }\n' % (T, T, T, T, T, T, p) + old)
+        timpls.append(t)
+        trace.items.append((SHAPE_RS, '<%s as Transformable>::transform' % T))
+    trf = trf + '\n\n' + '\n\n'.join(timpls)
     body = hdr + '{\n' + '\n\n'.join(fns) + '\n}\n'
     body = body.replace('Matrix4<f32>', 'Matrix4<f32>')
     # drop-fmt-args has already turned assert_eq!(a, b, msg) into assert!(a == b)
@@ -285,7 +371,7 @@ def build(repo, trace):
     bulk_text = (bo + "\n\nimpl<'a, T> BulkOutput<'a, T> {\n" + '\n\n'.join(bo_fns) + '\n}\n\n' + ms + '\n\n' + bae + '\n\npub struct BulkEvalError(pub BulkArgError);\n\n'
                  + be + '\n\n' + sbe + '\n\n' + sbv + '\n\n' + bbody)
     trace.items.append((SHAPE_RS, 'enum ShapeBulkEvalError, struct ShapeBulkEval'))
-    text = ('#![feature(allocator_api)]\nuse vstd::prelude::*;\nuse vstd::std_specs::convert::*;\nverus! {\n' + vi + '\n\n' + var + '\n\n' + tae + '\n\npub struct TracingEvalError(pub TracingArgError);\n\n'
+    text = ('#![feature(allocator_api)]\nuse vstd::prelude::*;\nuse vstd::std_specs::convert::*;\nuse vstd::std_specs::ops::*;\nverus! {\n' + vi + '\n\n' + var + '\n\n' + tae + '\n\npub struct TracingEvalError(pub TracingArgError);\n\n'
             + tape_tr + '\n\n' + te + '\n\n' + st + '\n\nimpl<T: Tape> ShapeTape<T> {\n' + st_vars + '\n}\n\n' + mv + '\n\n' + ste + '\n\n' + sev + '\n\n' + trf + '\n\n' + body + '\n' + bulk_text
             + '\n} // verus!\nfn main() {}\n')
     inj = Injector(text, trace)
@@ -344,10 +430,11 @@ def build(repo, trace):
         inj.loop_inv(q, RESIZE_ANCHOR if anchor == '@RESIZE@' else anchor, inv)
     inj.attr('ShapeTracingEval::eval_raw', '#[verifier::loop_isolation(false)]')
     inj.attr('ShapeBulkEval::eval_raw', '#[verifier::loop_isolation(false)]')
-    inj.append_items(PRELUDE)
+    inj.append_items(PRELUDE.replace('@DATA_STUBS@', data_stub('Interval', 'iv', 'pub lower: f32, pub upper: f32') + data_stub('Grad', 'gd', 'pub v: f32, pub dx: f32, pub dy: f32, pub dz: f32')))
     fns = ['BulkOutput::new', 'BulkOutput::borrow', 'ShapeBulkEval::eval_raw', 'ShapeBulkEval::eval', 'ShapeBulkEval::eval_with_transform', 'ShapeBulkEval::no_vars', 'ShapeTape::vars', 'ShapeTracingEval::eval_raw', 'ShapeTracingEval::eval', 'ShapeTracingEval::eval_with_transform',
            'ShapeTracingEval::eval_with_transform_and_vars', 'ShapeTracingEval::eval_with_vars']
     obls = [Obligation('shape::' + f, 'shape', f, props=PROPS) for f in fns]
+    obls += [Obligation('shape::<%s as Transformable>::transform' % T, 'shape', '*%s::transform' % T, props=['C14']) for T in ('Interval', 'Grad')]
     return {'texts': {'base': inj.s}, 'obligations': obls, 'canary_fns': ['ShapeTracingEval::eval_raw', 'ShapeTracingEval::eval', 'ShapeBulkEval::eval_raw', 'ShapeBulkEval::eval']}
 
 
